@@ -217,9 +217,18 @@ class C18(CtxCheck):
 
         from . import reent
 
-        return self._units0(tier, seed) + two_type_units(tier) + reent.units(tier)
+        from . import compadds
+
+        # racing lookups of a SYNCHRONOUS factory through the asynchronous API: still one generation, one event
+        sync_races = [{"race": {"async": False, "types": t, "own_child": False, "tasks": [[a, "A", pre], [b, "A" if t == 1 else "B", pre]]}}
+                      for t in (1, 2) for a, b in (("method", "method"), ("shortcut", "inject"), ("inject", "method")) for pre in (False, True)]
+        return self._units0(tier, seed) + two_type_units(tier) + reent.units(tier) + compadds.units(tier) + sync_races
 
     def work(self, unit: dict, tier: str) -> dict:
+        if "compadds" in unit:
+            from . import compadds
+
+            return compadds.work(unit, {"events"})
         if "reent" in unit:
             from . import reent
 
@@ -235,6 +244,10 @@ class C18(CtxCheck):
         return self._work0(unit, tier)
 
     def replay(self, rec: dict):  # type: ignore[no-untyped-def]
+        if "compadds" in rec.get("program", {}):
+            from . import compadds
+
+            return compadds.replay(rec, self.id, {"events"})
         if "reent" in rec.get("program", {}):
             from . import reent
 
